@@ -109,7 +109,7 @@ func init() {
 func init() {
 	plans["C03"] = &plan{
 		runner:      runC03,
-		rule:        "(a) source level: two-run trace equality. For each of the constant-time entry points (ScalarMult, ScalarBaseMult, MultiScalarMult with n=0..3, all Point arithmetic/comparison/encoding/export, valid-input decoders, all Scalar and field.Element operations incl. Select/Swap with both cond values) assignment 0 is the reference; assignments 1..N walk adversarial secret classes (scalar 0/1/l-1/digit extremes, identity, identity and order-2 point with literal-zero X limbs, all 8 small-order points, generator, rescaled/non-canonical-limb points, equal operands, field 0/+-1/i/p-19/18/d in every recipe, limb-maximal elements, cond 0/1) and then uniform values; the leakage trace (function entries, every branch/loop/short-circuit/composite-comparison outcome, case and range entries, every non-constant index/slice bound/make length, every non-constant shift count and divisor, arguments of calls to packages not on the constant-time allow-list) recorded by a source-instrumented build generated from the working tree must be identical to the reference; on a difference the function of the deciding event is reported, its events are removed from both traces and the comparison repeated. No code is exempt by name: decoder entry points are compared within one accept class, and SetCanonicalBytes within the inputs on which the comparison with l decides at its first step (top byte < 0x10); VarTime entry points are not driven. (b) machine level: the uninstrumented library is linked into a small binary that reads one secret assignment as fixed-size raw operand images, places operands and receivers in package-level slots and runs every entry point between marker calls under valgrind --tool=lackey --trace-mem=yes (GOMAXPROCS=1, GOGC=off, asyncpreemptoff); the complete instruction-address and load/store-address trace of each region, minus scheduler/GC/allocator code classified by the binary's symbol table (runtime leaf helpers such as memequal/memmove stay in), is hashed in chunks of 4096 records and must be identical to the reference assignment's; a differing chunk is re-traced in both runs, must reproduce, and is attributed with the symbol table and go tool addr2line. In the thorough tier the subject is also built with -tags purego and 26 of the assignments are traced again. The K1 witness class is handled at machine level by comparing two members of the class with each other (must be identical) and with the reference (first divergence must lie in checkInitialized). distinct by (entry point, assignment, class, input bytes).",
+		rule:        "(a) source level: two-run trace equality. For each of the constant-time entry points (ScalarMult, ScalarBaseMult, MultiScalarMult with n=0..3, all Point arithmetic/comparison/encoding/export, valid-input decoders, all Scalar and field.Element operations incl. Select/Swap with both cond values) assignment 0 is the reference; assignments 1..N walk adversarial secret classes (scalar 0/1/l-1/digit extremes, identity, identity and order-2 point with literal-zero X limbs, all 8 small-order points, generator, rescaled/non-canonical-limb points, equal operands, field 0/+-1/i/p-19/18/d in every recipe, limb-maximal elements, cond 0/1) and then uniform values; the leakage trace (function entries, every branch/loop/short-circuit/composite-comparison outcome, case and range entries, every non-constant index/slice bound/make length, every non-constant shift count and divisor, arguments of calls to packages not on the constant-time allow-list) recorded by a source-instrumented build generated from the working tree (default and -tags purego, both in every tier) must be identical to the reference; a difference is re-examined with four fresh runs interleaved reference/this/reference/this and counts only if both pairs are reproducible and differ (events of functions whose trace varies for a FIXED input - pooled or lazily built state - are excluded and named in a note); the function of the deciding event is reported, its events are removed from both traces and the comparison repeated. No code is exempt by name: decoder entry points are compared within one accept class, and SetCanonicalBytes within the inputs on which the comparison with l decides at its first step (top byte < 0x10); VarTime entry points are not driven. (b) machine level: the uninstrumented library is linked into a small binary that reads one secret assignment as fixed-size raw operand images, places operands and receivers in package-level slots and runs every entry point between marker calls under valgrind --tool=lackey --trace-mem=yes (GOMAXPROCS=1, GOGC=off, asyncpreemptoff); the complete instruction-address and load/store-address trace of each region, minus scheduler/GC/allocator code classified by the binary's symbol table (runtime leaf helpers such as memequal/memmove stay in), is hashed in chunks of 4096 records and must be identical to the reference assignment's; a differing chunk is re-traced in both runs, must reproduce, and is attributed with the symbol table and go tool addr2line. In the thorough tier the subject is also built with -tags purego and 26 of the assignments are traced again. The K1 witness class is handled at machine level by comparing two members of the class with each other (must be identical) and with the reference (first divergence must lie in checkInitialized). distinct by (entry point, assignment, class, input bytes).",
 		assumptions: append([]string{"leakage model: program counter, memory addresses and the listed operand values; micro-architectural effects (e.g. data-dependent multiplier latency) are out of reach of this monitor"}, commonAssumptions...),
 		minEvals:    1000,
 	}
